@@ -1,6 +1,7 @@
 // C08: frg::pairing_heap vs a reference multiset after every push / pop / remove.
 #include "common/verif.hpp"
 #include <frg/pairing_heap.hpp>
+#include <memory>
 #include <frg/intrusive.hpp>
 #include <vector>
 #include <algorithm>
@@ -241,6 +242,53 @@ static void deep_sibling_lists() {
 	sample("deep: 300001 descending (or equal) pushes, pop of the root with 300000 children, remove of a demoted element, verified drain of 2000 - on a worker thread with a 256 KiB stack");
 }
 
+// ---- a non-intrusive heap: the elements are plain records and the heap's *locator object* owns a side table of hooks (the Locate
+// template argument may carry state; the heap keeps one instance of it). Same reference-multiset oracle, removed hooks are checked
+// by pushing the element again.
+struct SNode { int prio; int id; };
+struct SideTableLocate {
+	std::unique_ptr<frg::pairing_heap_hook<SNode>[]> hooks{new frg::pairing_heap_hook<SNode>[64]()};
+	frg::pairing_heap_hook<SNode> &operator()(SNode &n) { return hooks[n.id]; }
+};
+struct SCompare { bool operator()(SNode *a, SNode *b) const { return a->prio < b->prio; } };
+static void side_table_heap() {
+	if(!want_mode("side-table")) return;
+	Rng sr(derive_seed("side-table"));
+	for(uint64_t c = 0; c < scaled(200, 5000); c++) {
+		uint64_t cs = sr.next();
+		if(!want_case(c)) continue;
+		begin_case("side-table", c);
+		g_bad = false; g_trace.clear();
+		Rng r(cs);
+		guarded("C08", [&] {
+			frg::pairing_heap<SNode, SideTableLocate, SCompare> h;
+			std::vector<SNode> pool(64); std::vector<SNode *> live, out;
+			for(int i = 0; i < 64; i++) { pool[i] = {0, i}; out.push_back(&pool[i]); }
+			auto check = [&](const char *when) {
+				if(h.empty() != live.empty()) return fail("empty", strf("side-table heap: empty()=%d with %zu elements contained (%s)", (int)h.empty(), live.size(), when));
+				if(live.empty()) return;
+				SNode *t = h.top();
+				if(std::find(live.begin(), live.end(), t) == live.end()) return fail("top-not-contained", strf("side-table heap: top() is not a contained element (%s)", when));
+				for(auto *x : live) if(t->prio < x->prio) return fail("top-not-max", strf("side-table heap: top() has priority %d but priority %d is contained (%s)", t->prio, x->prio, when));
+			};
+			unsigned nops = 20 + r.below(200);
+			for(unsigned i = 0; i < nops && !g_bad; i++) {
+				int op = r.below(5);
+				if(live.empty()) op = 0;
+				if(op <= 1 && !out.empty()) { size_t k = r.below(out.size()); SNode *x = out[k]; out.erase(out.begin() + k); x->prio = (int)r.below(6); h.push(x); live.push_back(x); g_trace += strf("push(p%d#%d) ", x->prio, x->id); }
+				else if(op <= 3 && !live.empty()) { SNode *t = h.top(); h.pop(); auto it = std::find(live.begin(), live.end(), t); if(it == live.end()) { fail("pop-not-contained", "side-table heap: pop() removed an element that was not contained"); break; } live.erase(it); out.push_back(t); g_trace += "pop "; }
+				else if(!live.empty()) { size_t k = r.below(live.size()); SNode *x = live[k]; h.remove(x); live.erase(live.begin() + k); out.push_back(x); g_trace += strf("remove(#%d) ", x->id); }
+				check("after an operation");
+			}
+			int last = 1 << 30;
+			while(!live.empty() && !g_bad) { SNode *t = h.top(); if(t->prio > last) fail("drain-order", "side-table heap: drain is not in non-increasing order"); last = t->prio; h.pop(); auto it = std::find(live.begin(), live.end(), t); if(it == live.end()) { fail("drain-lost", "side-table heap: drain popped an element that was not contained"); break; } live.erase(it); }
+			if(!g_bad && !h.empty()) fail("drain-lost", "side-table heap: heap not empty after popping as many elements as were contained");
+			if(g_bad) { while(!h.empty()) h.pop(); }
+		});
+		note_distinct(mix(hash_str("side-table"), cs)); count("side_table_histories");
+	}
+}
+
 int main(int argc, char **argv) {
 	parse_args(argc, argv, "c08_heap");
 	rec.rule = "a case is one push/pop/remove history (removal targets chosen by structural role); after every operation empty()/top() are compared with the reference multiset "
@@ -250,6 +298,7 @@ int main(int argc, char **argv) {
 	random_histories("rand:small", scaled(400, 10000), 40, 300);
 	random_histories("rand:large", scaled(6, 150), t ? 10000 : 2000, t ? 40000 : 6000);
 	deep_sibling_lists();
+	side_table_heap();
 	sample("exh x=123456: length-6 sequence over {push p0..p3, pop, remove(role)} with checks after every op and a verified drain");
 	sample("rand:large: up to 2000 (thorough 10000) elements, priority streams ascending/descending/3-valued/random, removal by role (root, first child, middle sibling, last sibling, leaf)");
 	return finish();
